@@ -64,7 +64,6 @@ POLY = ["box", "hull", "mesh"]
 C07_KNOWN = set()      # filled in run(): recorded findings of C07 whose input classes are skipped here
 C09_KNOWN = set()
 C18_ILLCOND = [False]
-ORIG_FORCED_ZERO_ID = "F-O1"   # gjk_distance_original: exit forces d = 0 for a 4-point simplex although the backup solution is far
 
 
 # ============================================================================= colliders: generation
@@ -468,11 +467,6 @@ def judge_narrow(R, scene, res, T, member_queue):
                     # the simplex solver on a thin simplex, closest points right): recorded class C18-*-ILLCOND, judged by C01/C09/C18
                     T.hit("skip_gjk_self_inconsistent_C18_illcond")
                     continue
-                if base == "gjk_original" and ORIG_FORCED_ZERO_ID in C09_KNOWN and any(
-                        x.get("d") == 0.0 and x.get("last_simplex") == 4 and x.get("last_d2", 0.0) > (1e-3 * LL) ** 2
-                        for x, LL in ((a0, L[0]), (av, Lv))):
-                    T.hit("skip_gjk_original_forced_zero")
-                    continue
                 T.hit(f"cmp_d:{base}")
                 if abs(dv - mp["s"] * d0) > tol:
                     fail(f"{base}: {vname}: distance {dv!r} but {mp['s']!r} * {d0!r} = {mp['s'] * d0!r} expected (tolerance {tol:.3g})",
@@ -766,7 +760,8 @@ def run(tier, seed, replay=None):
     C07_KNOWN.update(foreign_known("C07"))
     C09_KNOWN.clear()
     C09_KNOWN.update(foreign_known("C09"))
-    C18_ILLCOND[0] = bool({"C18-JOLT-ILLCOND", "C18-ORIG-ILLCOND"} & foreign_known("C18"))
+    # F-J2 (C01): gjk_distance_jolt's d below |a-b| when the simplex solver returns a bogus shorter vector (C18-*-ILLCOND)
+    C18_ILLCOND[0] = "F-J2" in foreign_known("C01")
     R.cov["rule"] = (
         "scene = ordered pair of colliders (10 kinds, optional Margin; streams of harness/narrow.gen_pair: random, lattice incl. "
         "identical objects, wide, constructed gap / penetration; plus overlapping polytopes and Nesterov primitives) or a call of one "
